@@ -20,7 +20,7 @@ def showAlloc (s : State) (k : Nat) : String :=
     | some c => toString c
     | none => "-"
   match s.allocs k with
-  | some a => s!" A{k}:{a.owner}:{a.exp}:{a.wp}:{cp}:{a.mtc}:{a.mb}[" ++ ";".intercalate (a.bas.map showBA) ++ "]"
+  | some a => s!" A{k}:{a.owner}:{a.exp}:{a.wp}:{cp}:{a.mtc}:{a.mb}:{a.size}:{a.data}[" ++ ";".intercalate (a.bas.map showBA) ++ "]"
   | none => match s.cps k with
     | some _ => s!" A{k}:gone:cp={cp}"
     | none => ""
